@@ -44,6 +44,13 @@ def build(desc):
                 ls[l % len(ls)].v2 = vs[j % nv]
             else:
                 ls[l % len(ls)].v1 = vs[j % nv]
+    nest = desc.get("nest")
+    if nest:
+        # a graph of graphs: every vertex that is itself a Universe CONTAINS some of the other (linked) vertices
+        for i, v in enumerate(vs):
+            if isinstance(v, C.Universe):
+                for n in nest:
+                    v.add_vertex(vs[(i + 1 + n) % nv])
     return vs, ls
 
 
@@ -166,8 +173,9 @@ def eq_graph_descs(max_v=5, max_e=8):
 def graph_descs(max_v=8, max_e=14, classes=6, vcls=True, max_reassign=3, min_v=1, min_e=0, wide=False):
     cls = st.integers(0, classes - 1)
 
-    def mk(nv, edges, reassign, vc, luid=None, vuid=None, lattrs=None):
+    def mk(nv, edges, reassign, vc, luid=None, vuid=None, lattrs=None, nest=None):
         return {
+            **({"nest": nest} if nest and wide else {}),
             **({"lattrs": lattrs} if lattrs else {}),
             **({"wide": True} if wide else {}),
             **({"luid": luid} if luid else {}),
@@ -187,4 +195,5 @@ def graph_descs(max_v=8, max_e=14, classes=6, vcls=True, max_reassign=3, min_v=1
         st.one_of(st.none(), st.none(), st.none(), st.lists(st.integers(0, 3), min_size=1, max_size=3)),
         st.one_of(st.none(), st.none(), st.none(), st.lists(st.integers(0, 3), min_size=1, max_size=3)),
         st.one_of(st.none(), st.none(), st.lists(st.integers(0, 23), min_size=1, max_size=3)),
+        (st.one_of(st.none(), st.lists(st.integers(0, 6), min_size=1, max_size=3)) if wide else st.none()),
     )
